@@ -984,6 +984,9 @@ func (c *Ctx) ruleP3() {
 			released := false
 			for cls := range common {
 				rel := func(in ssa.Instruction) bool {
+					if _, isDefer := in.(*ssa.Defer); isDefer {
+						return false // a deferred unlock runs at exit, after the Put
+					}
 					op := lockOpOf(in)
 					return op != nil && op.class == cls && (op.kind == "Unlock" || op.kind == "RUnlock")
 				}
